@@ -94,21 +94,35 @@ class Tr:
             raise Opaque(f"call of {ast.unparse(f)[:40]} (not known to be pure)")
         raise Opaque(f"expression {type(e).__name__}")
 
-    def stmts(self, body: List[ast.stmt]) -> str:
-        out = "(.skip)"
-        parts = [self.stmt(s) for s in body]
-        parts = [p for p in parts if p != "(.skip)"]
-        if not parts:
-            return out
-        out = parts[-1]
-        for p in reversed(parts[:-1]):
-            out = f"(.seq {p} {out})"
-        return out
+    def stmts(self, body: List[ast.stmt], k: str = "(.skip)") -> str:
+        """a statement list followed by the (already translated) continuation `k`.  `continue` drops the continuation: the guard-clause
+        shape `if c: continue; rest` is `if c: pass else: rest`."""
+        if not body:
+            return k
+        s, rest = body[0], body[1:]
+        if isinstance(s, ast.Continue):
+            return "(.skip)"
+        if isinstance(s, ast.If) and any(isinstance(n, ast.Continue) for n in ast.walk(s)):
+            kk = self.stmts(rest, k)
+            return self.ite(s.test, self.stmts(s.body, kk), self.stmts(s.orelse, kk))
+        head = self.stmt(s)
+        tail = self.stmts(rest, k)
+        if head == "(.skip)":
+            return tail
+        if tail == "(.skip)":
+            return head
+        return f"(.seq {head} {tail})"
+
+    def ite(self, test: ast.AST, t: str, f: str) -> str:
+        """`if not c: A else: B` is `if c: B else: A` (Python's `not` is interpreted HERE, so that the loop language needs no negation)"""
+        while isinstance(test, ast.UnaryOp) and isinstance(test.op, ast.Not):
+            test, t, f = test.operand, f, t
+        return f"(.ite {self.expr(test)} {t} {f})"
 
     def assign(self, name: str, value: ast.AST) -> str:
         """`x = a if c else b` is the statement `if c: x = a else: x = b` (same meaning, other shape)"""
         if isinstance(value, ast.IfExp):
-            return f"(.ite {self.expr(value.test)} {self.assign(name, value.body)} {self.assign(name, value.orelse)})"
+            return self.ite(value.test, self.assign(name, value.body), self.assign(name, value.orelse))
         return f"(.assign {_q(name)} {self.expr(value)})"
 
     def stmt(self, s: ast.stmt) -> str:
@@ -131,7 +145,7 @@ class Tr:
                 return f"(.emit {_q(t.value.id)} {self.expr(t.slice)} {self.expr(s.value)})"
             raise Opaque(f"store into {ast.unparse(t)[:40]}")
         if isinstance(s, ast.If):
-            return f"(.ite {self.expr(s.test)} {self.stmts(s.body)} {self.stmts(s.orelse)})"
+            return self.ite(s.test, self.stmts(s.body), self.stmts(s.orelse))
         if isinstance(s, ast.Expr) and isinstance(s.value, ast.Call):
             c = s.value
             f = c.func
@@ -151,6 +165,92 @@ class Tr:
         head = f"(.assign {_q(var.id)} .elem)"
         return head if inner == "(.skip)" else f"(.seq {head} {inner})"
 
+
+
+# ------------------------------------------------------------------------------------------------ path normal form
+def _parse(txt: str):
+    """the translator's text -> nested tuples: ('seq', a, b), ('assign', 'x', e), ('app1', 'f', a), ('const', 3), ('elem',) …"""
+    import re
+    toks = re.findall(r'"[^"]*"|[()]|[^\s()"]+', txt)
+    pos = 0
+
+    def rd():
+        nonlocal pos
+        t = toks[pos]
+        pos += 1
+        if t == "(":
+            head = toks[pos].lstrip(".")
+            pos += 1
+            args = []
+            while toks[pos] != ")":
+                args.append(rd())
+            pos += 1
+            return (head, *args)
+        if t.startswith('"'):
+            return t[1:-1]
+        if t.startswith("."):
+            return (t[1:],)
+        return int(t)
+    return rd()
+
+
+def _render(t) -> str:
+    if isinstance(t, str):
+        return _q(t)
+    if isinstance(t, int):
+        return str(t)
+    if len(t) == 1:
+        return "." + t[0]
+    return "(." + t[0] + " " + " ".join(_render(x) for x in t[1:]) + ")"
+
+
+def _subst(e, store):
+    if e[0] == "var":
+        return store.get(e[1], e)
+    if e[0] == "app1":
+        return ("app1", e[1], _subst(e[2], store))
+    if e[0] == "app2":
+        return ("app2", e[1], _subst(e[2], store), _subst(e[3], store))
+    return e
+
+
+def normal_form(body_txt: str) -> str:
+    """PATH NORMAL FORM of a loop body, by symbolic execution: a decision tree of `ite` over conditions written in terms of the element
+    (locals substituted by the expressions assigned to them; a local read before its assignment stays a `var`), emits at the leaves, no
+    assignments.  Sound rewrites only: `if not c: A else: B` = `if c: B else: A`; a constant condition selects its branch (0 / None / False
+    are falsy); a condition already decided on the path keeps its value (expressions are pure); `if c: A else: A` = `A`.  Two loops with the
+    same normal form emit the same values for every element, whatever the pure functions compute - so the pin on the normal form
+    survives a rewrite of the statements (guard clause, conditional expression, `x = None` before / `else: x = None` after)."""
+    def ex(st, store, emits, known, k):
+        h = st[0]
+        if h == "skip":
+            return k(store, emits, known)
+        if h == "assign":
+            return k({**store, st[1]: _subst(st[2], store)}, emits, known)
+        if h == "seq":
+            return ex(st[1], store, emits, known, lambda s2, e2, k2: ex(st[2], s2, e2, k2, k))
+        if h == "emit":
+            return k(store, emits + [("emit", st[1], _subst(st[2], store), _subst(st[3], store))], known)
+        if h == "ite":
+            c, flip = _subst(st[1], store), False
+            while c[0] == "app1" and c[1] == "unary:Not":
+                c, flip = c[2], not flip
+            t, f = (st[3], st[2]) if flip else (st[2], st[3])
+            if c[0] == "const":
+                return ex(t if c[1] != 0 else f, store, emits, known, k)
+            if c in known:
+                return ex(t if known[c] else f, store, emits, known, k)
+            a = ex(t, store, emits, {**known, c: True}, k)
+            b = ex(f, store, emits, {**known, c: False}, k)
+            return a if a == b else ("ite", c, a, b)
+        raise ValueError(h)
+
+    def leaf(_store, emits, _known):
+        out = ("skip",)
+        for e in reversed(emits):
+            out = e if out == ("skip",) else ("seq", e, out)
+        return out
+    return _render(ex(_parse(body_txt), {}, [], {}, leaf))
 
 # ------------------------------------------------------------------------------------------------ uses of an accumulator
 RANK = ["dropped", "lenOnly", "asSet", "asSorted", "byKey", "ordered"]
@@ -340,7 +440,7 @@ def translate_site(T, fi, scope: str, detail: str) -> Tuple[str, List[Tuple[str,
         v = tr.expr(n.elt)
         em = f'(.emit "<result>" {v} {v})'
     for c in reversed(g.ifs):
-        em = f"(.ite {tr.expr(c)} {em} (.skip))"
+        em = tr.ite(c, em, "(.skip)")
     body = f"(.seq (.assign {_q(g.target.id)} .elem) {em})"
     # who consumes the comprehension's value: an assignment to a local name -> that name's uses; else the expression's own context
     p = parents.get(id(n))
@@ -368,7 +468,8 @@ def rows() -> List[Tuple[str, str, str, int, str]]:
             continue
         try:
             body, uses = translate_site(T, by_rel[f], scope, detail)
-            lean = f".loop ⟨{body}, [" + ", ".join(f"({_q(a)}, .{u})" for a, u in uses) + "]⟩"
+            us = "[" + ", ".join(f"({_q(a)}, .{u})" for a, u in uses) + "]"
+            lean = f".loop ⟨{body}, {us}⟩ ⟨{normal_form(body)}, {us}⟩"
         except Opaque as e:
             lean = f".opaque {_q(str(e))}"
         out.append((f, scope, detail, occ, lean))
@@ -415,7 +516,7 @@ def emit() -> str:
     L = ["import PrimaiteModel.Model.NoninterfLoop",
          "namespace Primaite.Gen.NondetLoops",
          "open Primaite.Noninterf.LoopIR",
-         "inductive Translation\n  | loop (l : Loop)\n  | opaque (why : String)\n  deriving DecidableEq, Repr",
+         "/-- `loop raw normal`: the statement-by-statement translation, and its path normal form (see harness/extract/nondet_loops.py) -/\ninductive Translation\n  | loop (l : Loop) (normal : Loop)\n  | opaque (why : String)\n  deriving DecidableEq, Repr",
          f"/-- {len(rs)} set iterations whose consumer is a loop / comprehension / list(): (file, scope, detail, occurrence, translation) -/",
          "def loops : List (String × String × String × Nat × Translation) := [\n  " + ",\n  ".join(
              f"({_q(f)}, {_q(s)}, {_q(d)}, {o}, {t})" for f, s, d, o, t in rs) + "]",
